@@ -441,6 +441,15 @@ def rule_r2(chk, prog, reg):
     chk.floor('C14.R2', 'toggle attribute derivation sites', n, 2)
 
 
+def _enclosing_func(e):
+    n = getattr(e, '_parent', None)
+    while n is not None:
+        if isinstance(n, ast.FunctionDef):
+            return n
+        n = getattr(n, '_parent', None)
+    return None
+
+
 def _enclosing_func_name(e):
     n = getattr(e, '_parent', None)
     while n is not None:
@@ -739,14 +748,32 @@ def rule_r6(chk, prog, reg):
     mm = prog.mod('mutators')
     summ = {('options', 'args'): lambda fo, a, k: fo.optns}
     # _get_value
-    gv = om.func('ToggleAction._get_value')
-    for s, want in (('--foo', True), ('--no-foo', False), ('--nofoo', True),
-                    ('--no-', False), ('--x-no-y', True)):
+    # the polarity function: the method whose result ToggleAction.__call__
+    # stores (by role, not by name)
+    gvname = None
+    for c_ in calls_in(om.func('ToggleAction.__call__')):
+        if call_name(c_) == 'setattr' and len(c_.args) == 3 and isinstance(
+                c_.args[2], ast.Call) and isinstance(
+                    c_.args[2].func, ast.Attribute) and isinstance(
+                        c_.args[2].func.value, ast.Name):
+            gvname = c_.args[2].func.attr
+    if gvname is None or f'ToggleAction.{gvname}' not in om.funcs:
+        gvname = '_get_value' if 'ToggleAction._get_value' in om.funcs \
+            else None
+    gv = om.func(f'ToggleAction.{gvname}') if gvname else None
+    static = gv is not None and any(
+        isinstance(d_, ast.Name) and d_.id == 'staticmethod'
+        for d_ in gv.decorator_list)
+    POLARITY = (('--foo', True), ('--no-foo', False), ('--nofoo', True),
+                ('--no-', False), ('--x-no-y', True))
+    for s, want in (POLARITY if gv is not None else ()):
         fo = Folder(prog, summaries=summ)
-        got = fo.call_function(FuncRef(om, 'ToggleAction._get_value', gv),
-                               [Inst(ClassRef(om, 'ToggleAction')), s], {})
-        chk.check('C14.R6', 'options.ToggleAction._get_value', f'{s}',
-                  got is want, f'_get_value({s!r}) folds to {got!r}, '
+        got = fo.call_function(
+            FuncRef(om, f'ToggleAction.{gvname}', gv),
+            ([] if static else [Inst(ClassRef(om, 'ToggleAction'))]) + [s],
+            {})
+        chk.check('C14.R6', f'options.ToggleAction.{gvname}', f'{s}',
+                  got is want, f'{gvname}({s!r}) folds to {got!r}, '
                   f'documented {want}', loc=om.loc(gv), nontrivial=True)
     # ToggleAction.__call__ for both polarities, with every prior state
     call = om.func('ToggleAction.__call__')
@@ -770,6 +797,16 @@ def rule_r6(chk, prog, reg):
             results.append((dec, ns))
         return results
 
+    if gv is None:
+        # the polarity is computed in __call__ itself
+        for s, want in POLARITY:
+            for dec, ns in run_action(om, 'ToggleAction.__call__',
+                                      {'dest': 'mutator_opt'}, s, {}):
+                got = ns.attrs.get('mutator_opt', '<unset>')
+                chk.check('C14.R6', 'options.ToggleAction.__call__',
+                          f'polarity of {s}', got is want,
+                          f'{s!r} stores {got!r}, documented {want}',
+                          loc=om.loc(call), nontrivial=True)
     for s, want in (('--opt', True), ('--no-opt', False)):
         for prior in ({}, {'mutator_opt': True}, {'mutator_opt': False}):
             for dec, ns in run_action(om, 'ToggleAction.__call__',
@@ -852,6 +889,18 @@ def rule_r6(chk, prog, reg):
     for m in prog.pkg_modules():
         for c in ast.walk(m.tree):
             if isinstance(c, ast.Call) and call_name(c) == 'setattr':
+                if c.args and isinstance(c.args[0], ast.Name):
+                    r0 = prog.resolve_name(m, c.args[0].id)
+                    if r0 and r0[0] in ('ext', 'module') and not any(
+                            isinstance(x, (ast.Name, ast.arg)) and (
+                                getattr(x, 'id', None) == c.args[0].id
+                                and isinstance(getattr(x, 'ctx', None),
+                                               ast.Store)
+                                or getattr(x, 'arg', None) == c.args[0].id)
+                            for x in ast.walk(_enclosing_func(c) or m.tree)):
+                        # an attribute of a module object (e.g. a custom
+                        # log level on ``logging``), not of the namespace
+                        continue
                 nset += 1
                 fn = _enclosing_func_name(c)
                 chk.check('C14.R6', f'{m.name}.{fn}', c,
@@ -1286,18 +1335,27 @@ def rule_r9(chk, prog, reg):
                 if p.end is not fcfg.node_of[id(ol)]:
                     continue
                 nskip += 1
-                cur = None
+                curs = set()
+                if isinstance(ol, ast.For) and isinstance(
+                        ol.target, ast.Tuple) and isinstance(
+                            ol.target.elts[0], ast.Name):
+                    curs.add(ol.target.elts[0].id)
                 for st in ol.body:
                     if isinstance(st, ast.Assign) and isinstance(
                             st.targets[0], ast.Tuple) and isinstance(
                                 st.targets[0].elts[0], ast.Name):
-                        cur = st.targets[0].elts[0].id
+                        curs.add(st.targets[0].elts[0].id)
                         break
-                empty = cur is not None and any(
+                    if isinstance(st, ast.Assign) and isinstance(
+                            st.targets[0], ast.Name) and any(
+                                isinstance(x, ast.Name) and x.id == pv
+                                for x in ast.walk(st.value)):
+                        curs.add(st.targets[0].id)
+                empty = any(
                     (t, pol) in ((cur, False), (f'not {cur}', True),
                                  (f'len({cur}) == 0', True),
                                  (f'len({cur}) > 0', False))
-                    for (t, pol) in p.facts)
+                    for (t, pol) in p.facts for cur in curs)
                 other = [t for (t, pol) in p.facts][-1:] if p.facts else []
                 chk.check('C14.R9', where, f'{describe_path(p)}: pass '
                           'skipped only when it is empty', empty,
